@@ -3,7 +3,8 @@
 (*                                                                                                  *)
 (*   FSM apply of log entry i  --commit hook(s)-->  in-channel  --writeToBatcher (filter)-->        *)
 (*   batcher  --mainLoop-->  FIFO (key = highest label, keys <= highest-ever silently dropped)      *)
-(*   --leader loop (cursor, retry until sent)-->  endpoint;  on success hwm := key;                 *)
+(*   --leader loop (a goroutine started / stopped by mainLoop as it handles the QUEUED leadership    *)
+(*   signals; parked batch first, FIFO cursor, retry until sent)-->  endpoint;  on success hwm := key *)
 (*   leaderHWMLoop: broadcast hwm, prune own FIFO <= hwm;  followerLoop: prune <= received, adopt.  *)
 (*   Snapshot sync: batcher flushed into the FIFO before the log is truncated.                      *)
 (*   Restart: in-channel and batcher lost, log re-applied from the snapshot index, FIFO and its      *)
@@ -18,7 +19,11 @@
 (*   DrainInBeforeSync       ... and for the in-channel to be drained into the batcher first         *)
 (*   HWMAfterSendOK          hwm advances only after the endpoint accepted the batch                 *)
 (*   PruneToHWMOnly          leader prunes its FIFO up to hwm, never beyond                          *)
-(*   RewindCursor            a batch taken but not sent when leadership is lost is taken again       *)
+(*   RewindCursor            a batch taken but not sent when the leader loop is stopped is parked    *)
+(*                           (Service.unsent) and goes first in the next leader loop                 *)
+(*   ParkedKeptUntilSent     the parked batch is given up only by a leader loop that got past its    *)
+(*                           stop check and goes on to send it; FALSE: taken and cleared BEFORE the  *)
+(*                           stop check - a loop stopped before its first step returns without it    *)
 (*   RestartHWMBelowLowest   after a restart hwm := (lowest index in first FIFO item) - 1;           *)
 (*                           FALSE: (first FIFO key) - 1                                             *)
 (*   DropReapplied           groups re-created by the log replay after a restart whose index is      *)
@@ -26,10 +31,10 @@
 (*                           (they were stored before the restart); FALSE: only label <= hwm is      *)
 EXTENDS Naturals, Sequences, FiniteSets, TLC
 
-CONSTANTS Node, MaxIdx, Multi, BatchSz, InCap, AsyncHWM,
+CONSTANTS Node, MaxIdx, Multi, BatchSz, InCap, AsyncHWM, SigCap,
           MaxFlips, MaxLeaders, MaxRestarts, MaxSnaps, MaxDowns,
           OneGroupPerEntry, LabelEveryGroup, KeyByHighest, SyncFlushBeforeSnapshot, DrainInBeforeSync,
-          HWMAfterSendOK, PruneToHWMOnly, RewindCursor, RestartHWMBelowLowest, DropReapplied
+          HWMAfterSendOK, PruneToHWMOnly, RewindCursor, ParkedKeptUntilSent, RestartHWMBelowLowest, DropReapplied
 
 VARIABLES applied,   \* [Node -> Nat]  index of the last log entry applied by the FSM
           inq,       \* [Node -> Seq(group)] the in-channel (commit hook -> writeToBatcher)
@@ -43,14 +48,21 @@ VARIABLES applied,   \* [Node -> Nat]  index of the last log entry applied by th
           snapIdx,   \* [Node -> Nat]  log truncated up to here (restart re-applies from snapIdx+1)
           hch,       \* [Node -> Nat] HWM update received by the cluster service, not yet read by the follower loop (0 = none;
                      \* the real channel buffers 5 - a newer broadcast overwrites an unread one here)
-          lead,      \* set of nodes whose leader loop is running
+          lead,      \* set of nodes whose leader loop goroutine exists (started by mainLoop, not yet returned)
+          sig,       \* [Node -> Seq(BOOLEAN)] leadership signals queued on leaderObCh, not yet handled by mainLoop
+          want,      \* [Node -> BOOLEAN] the last signal the store sent
+          isl,       \* [Node -> BOOLEAN] mainLoop's isLeader flag
+          stop,      \* [Node -> BOOLEAN] the stop channel of the node's leader loop is closed
+          mwait,     \* [Node -> BOOLEAN] mainLoop sits in stopLeaderLoop waiting for the loop to return
+          unsent,    \* [Node -> <<>> | <<key, batch>>] batch parked by a leader loop that was stopped before it sent it
           up,        \* endpoint accepts requests
           delivered, \* set of groups (with the label they were sent under) accepted by the endpoint
           lastIdx,   \* [Node -> Nat] history: last label delivered in the current tenure (0 = none yet)
           ordOK,     \* history: deliveries were in non-decreasing label order within every tenure
           flips, restarts, snaps, downs
+mvars == <<sig, want, isl, stop, mwait, unsent>>
 vars == <<applied, inq, batch, fifo, highKey, startHigh, cursor, taken, hwm, snapIdx, hch, lead, up, delivered,
-          lastIdx, ordOK, flips, restarts, snaps, downs>>
+          lastIdx, ordOK, flips, restarts, snaps, downs, sig, want, isl, stop, mwait, unsent>>
 
 Sym == Permutations(Node)
 Unl == 99                                   \* a bound of 99 = unlimited, the counter stays 0
@@ -81,6 +93,8 @@ Init == /\ applied = [n \in Node |-> 0] /\ inq = [n \in Node |-> <<>>] /\ batch 
         /\ hch = [n \in Node |-> 0] /\ lead = {} /\ up = TRUE /\ delivered = {}
         /\ lastIdx = [n \in Node |-> 0] /\ ordOK = TRUE
         /\ flips = 0 /\ restarts = 0 /\ snaps = 0 /\ downs = 0
+        /\ sig = [n \in Node |-> <<>>] /\ want = [n \in Node |-> FALSE] /\ isl = [n \in Node |-> FALSE]
+        /\ stop = [n \in Node |-> FALSE] /\ mwait = [n \in Node |-> FALSE] /\ unsent = [n \in Node |-> <<>>]
 
 (* store.fsmApply: Reset(index), statements run, each commit with row changes hands one group to  *)
 (* the in-channel (db/cdc.go CommitHook).  The channel is kept from filling (property text).       *)
@@ -95,7 +109,7 @@ Apply(n) ==
        ELSE /\ Len(inq[n]) + Len(gs) <= InCap
             /\ inq' = [inq EXCEPT ![n] = @ \o gs] /\ UNCHANGED batch
   /\ applied' = [applied EXCEPT ![n] = @ + 1]
-  /\ UNCHANGED <<fifo, highKey, startHigh, cursor, taken, hwm, snapIdx, hch, lead, up, delivered, lastIdx, ordOK, flips, restarts, snaps, downs>>
+  /\ UNCHANGED <<fifo, highKey, startHigh, cursor, taken, hwm, snapIdx, hch, lead, up, delivered, lastIdx, ordOK, flips, restarts, snaps, downs, mvars>>
 
 (* writeToBatcher: one group from the in-channel; dropped when label # 0 and label <= hwm *)
 Ingest(n) ==
@@ -103,7 +117,7 @@ Ingest(n) ==
   /\ LET g == Head(inq[n]) IN
        batch' = [batch EXCEPT ![n] = IF Filtered(g, hwm[n], startHigh[n]) THEN @ ELSE Append(@, g)]
   /\ inq' = [inq EXCEPT ![n] = Tail(@)]
-  /\ UNCHANGED <<applied, fifo, highKey, startHigh, cursor, taken, hwm, snapIdx, hch, lead, up, delivered, lastIdx, ordOK, flips, restarts, snaps, downs>>
+  /\ UNCHANGED <<applied, fifo, highKey, startHigh, cursor, taken, hwm, snapIdx, hch, lead, up, delivered, lastIdx, ordOK, flips, restarts, snaps, downs, mvars>>
 
 (* mainLoop, case req := <-batcher.C: the batch (size reached, timer, or flush) goes to the FIFO *)
 FlushTo(n, b) ==
@@ -112,10 +126,10 @@ FlushTo(n, b) ==
     ELSE /\ fifo' = [fifo EXCEPT ![n] = (key :> b) @@ @]
          /\ highKey' = [highKey EXCEPT ![n] = key]
 Flush(n) ==
-  /\ batch[n] # <<>>
+  /\ batch[n] # <<>> /\ ~mwait[n]                     \* mainLoop is not sitting in stopLeaderLoop
   /\ FlushTo(n, batch[n])
   /\ batch' = [batch EXCEPT ![n] = <<>>]
-  /\ UNCHANGED <<applied, inq, startHigh, cursor, taken, hwm, snapIdx, hch, lead, up, delivered, lastIdx, ordOK, flips, restarts, snaps, downs>>
+  /\ UNCHANGED <<applied, inq, startHigh, cursor, taken, hwm, snapIdx, hch, lead, up, delivered, lastIdx, ordOK, flips, restarts, snaps, downs, mvars>>
 
 (* leaderLoop: ev := <-fifo.C; skipped when ev.Index <= hwm *)
 TakeKey(n, k) ==
@@ -123,9 +137,9 @@ TakeKey(n, k) ==
   /\ taken' = [taken EXCEPT ![n] = IF k <= hwm[n] THEN <<>> ELSE <<k, fifo[n][k]>>]
   /\ hwm' = [hwm EXCEPT ![n] = IF ~HWMAfterSendOK /\ k > @ THEN k ELSE @]
 Take(n) ==
-  /\ n \in lead /\ taken[n] = <<>>
+  /\ n \in lead /\ taken[n] = <<>> /\ unsent[n] = <<>>   \* select {stop, fifo.C}: an item may be taken although stop is closed
   /\ LET k == Seek(Keys(fifo[n]), cursor[n]) IN k # 0 /\ TakeKey(n, k)
-  /\ UNCHANGED <<applied, inq, batch, fifo, highKey, startHigh, snapIdx, hch, lead, up, delivered, lastIdx, ordOK, flips, restarts, snaps, downs>>
+  /\ UNCHANGED <<applied, inq, batch, fifo, highKey, startHigh, snapIdx, hch, lead, up, delivered, lastIdx, ordOK, flips, restarts, snaps, downs, mvars>>
 
 (* sink.Write returned nil: the endpoint has the batch; hwm := key.  (A failed attempt changes nothing: *)
 (* the loop sleeps and retries; a finite retry limit is excluded by the property.)                      *)
@@ -138,19 +152,44 @@ SendOK(n) ==
   /\ Deliver(n, taken[n][2])
   /\ hwm' = [hwm EXCEPT ![n] = taken[n][1]]
   /\ taken' = [taken EXCEPT ![n] = <<>>]
-  /\ UNCHANGED <<applied, inq, batch, fifo, highKey, startHigh, cursor, snapIdx, hch, lead, up, flips, restarts, snaps, downs>>
+  /\ UNCHANGED <<applied, inq, batch, fifo, highKey, startHigh, cursor, snapIdx, hch, lead, up, flips, restarts, snaps, downs, mvars>>
 
-(* mainLoop sees leaderNow = true: follower loop stopped, leader loop started *)
-Gain(n) ==
-  /\ n \notin lead /\ flips < MaxFlips /\ Cardinality(lead) < MaxLeaders
-  /\ lead' = lead \cup {n} /\ flips' = Cnt(flips, MaxFlips)
-  /\ UNCHANGED <<applied, inq, batch, fifo, highKey, startHigh, cursor, taken, hwm, snapIdx, hch, up, delivered, lastIdx, ordOK, restarts, snaps, downs>>
-(* leader loop exits (stop seen at the top of the loop or in the retry sleep) *)
-Lose(n) ==
-  /\ n \in lead /\ lead' = lead \ {n}
-  /\ cursor' = [cursor EXCEPT ![n] = IF RewindCursor /\ taken[n] # <<>> THEN taken[n][1] ELSE @]
+(* A leader loop is a goroutine of its own: mainLoop starts it when it handles a queued "leader" signal and *)
+(* stops it (closes stop, waits for it to return) when it handles a queued "not leader" signal.  The signals *)
+(* are queued on leaderObCh by the store; leadership can be won and lost again before mainLoop handles the  *)
+(* first signal, and a loop can find stop closed at its very first step.                                    *)
+Signal(n, b) ==
+  /\ want[n] # b /\ flips < MaxFlips /\ Len(sig[n]) < SigCap
+  /\ b => Cardinality({m \in Node : want[m]}) < MaxLeaders
+  /\ sig' = [sig EXCEPT ![n] = Append(@, b)] /\ want' = [want EXCEPT ![n] = b]
+  /\ flips' = Cnt(flips, MaxFlips)
+  /\ UNCHANGED <<applied, inq, batch, fifo, highKey, startHigh, cursor, taken, hwm, snapIdx, hch, lead, up, delivered, lastIdx, ordOK, restarts, snaps, downs, isl, stop, mwait, unsent>>
+MainHandle(n) ==
+  /\ sig[n] # <<>> /\ ~mwait[n]
+  /\ sig' = [sig EXCEPT ![n] = Tail(@)]
+  /\ isl' = [isl EXCEPT ![n] = Head(sig[n])]
+  /\ IF Head(sig[n])
+     THEN /\ lead' = lead \cup {n} /\ stop' = [stop EXCEPT ![n] = FALSE]          \* go leaderLoop()
+          /\ lastIdx' = [lastIdx EXCEPT ![n] = 0] /\ UNCHANGED mwait
+     ELSE /\ stop' = [stop EXCEPT ![n] = TRUE] /\ mwait' = [mwait EXCEPT ![n] = TRUE]  \* close(stop); <-done
+          /\ UNCHANGED <<lead, lastIdx>>
+  /\ UNCHANGED <<applied, inq, batch, fifo, highKey, startHigh, cursor, taken, hwm, snapIdx, hch, up, delivered, ordOK, flips, restarts, snaps, downs, want, unsent>>
+(* the loop's stop check: at the top of every iteration when a batch is parked (before it is taken), in the  *)
+(* select with the FIFO channel otherwise, and in the retry sleep - there the batch in hand is parked        *)
+LoopExit(n) ==
+  /\ n \in lead /\ stop[n]
+  /\ lead' = lead \ {n} /\ mwait' = [mwait EXCEPT ![n] = FALSE]
+  /\ unsent' = [unsent EXCEPT ![n] = IF taken[n] # <<>> THEN (IF RewindCursor THEN taken[n] ELSE <<>>)
+                                     ELSE IF ParkedKeptUntilSent THEN @ ELSE <<>>]
   /\ taken' = [taken EXCEPT ![n] = <<>>] /\ lastIdx' = [lastIdx EXCEPT ![n] = 0]
-  /\ UNCHANGED <<applied, inq, batch, fifo, highKey, startHigh, hwm, snapIdx, hch, up, delivered, ordOK, flips, restarts, snaps, downs>>
+  /\ UNCHANGED <<applied, inq, batch, fifo, highKey, startHigh, cursor, hwm, snapIdx, hch, up, delivered, ordOK, flips, restarts, snaps, downs, sig, want, isl, stop>>
+(* past the stop check: the parked batch goes first (skipped when the mark has passed it meanwhile) *)
+TakeParked(n) ==
+  /\ n \in lead /\ taken[n] = <<>> /\ unsent[n] # <<>> /\ ~stop[n]
+  /\ taken' = [taken EXCEPT ![n] = IF unsent[n][1] <= hwm[n] THEN <<>> ELSE unsent[n]]
+  /\ hwm' = [hwm EXCEPT ![n] = IF ~HWMAfterSendOK /\ unsent[n][1] > @ THEN unsent[n][1] ELSE @]
+  /\ unsent' = [unsent EXCEPT ![n] = <<>>]
+  /\ UNCHANGED <<applied, inq, batch, fifo, highKey, startHigh, cursor, snapIdx, hch, lead, up, delivered, lastIdx, ordOK, flips, restarts, snaps, downs, sig, want, isl, stop, mwait>>
 
 (* leaderHWMLoop tick, first half: BroadcastHighWatermark reaches node m's cluster service (also the leader's own) *)
 AdoptHWM(m, v) ==
@@ -162,9 +201,9 @@ Broadcast(n, m) ==
   /\ IF AsyncHWM
      THEN /\ hwm[n] # hch[m] /\ hch' = [hch EXCEPT ![m] = hwm[n]]
           /\ UNCHANGED <<fifo, cursor, hwm>>
-     ELSE /\ m \notin lead /\ hwm[m] # hwm[n]                \* small configurations: delivered and read in one step
+     ELSE /\ m \notin lead /\ ~isl[m] /\ hwm[m] # hwm[n]                \* small configurations: delivered and read in one step
           /\ AdoptHWM(m, hwm[n]) /\ UNCHANGED hch
-  /\ UNCHANGED <<applied, inq, batch, highKey, startHigh, taken, snapIdx, lead, up, delivered, lastIdx, ordOK, flips, restarts, snaps, downs>>
+  /\ UNCHANGED <<applied, inq, batch, highKey, startHigh, taken, snapIdx, lead, up, delivered, lastIdx, ordOK, flips, restarts, snaps, downs, mvars>>
 (* second half: prune own FIFO *)
 LeaderPrune(n) ==
   /\ n \in lead /\ hwm[n] > 0
@@ -172,14 +211,14 @@ LeaderPrune(n) ==
        /\ (\E k \in Keys(fifo[n]) : k <= d) \/ CursorAfterDel(cursor[n], d) # cursor[n]
        /\ fifo' = [fifo EXCEPT ![n] = PruneF(@, d)]
        /\ cursor' = [cursor EXCEPT ![n] = CursorAfterDel(@, d)]
-  /\ UNCHANGED <<applied, inq, batch, highKey, startHigh, taken, hwm, snapIdx, hch, lead, up, delivered, lastIdx, ordOK, flips, restarts, snaps, downs>>
+  /\ UNCHANGED <<applied, inq, batch, highKey, startHigh, taken, hwm, snapIdx, hch, lead, up, delivered, lastIdx, ordOK, flips, restarts, snaps, downs, mvars>>
 (* followerLoop: hwm := <-hwmObCh; DeleteRange(hwm); highWatermark.Store(hwm).  The loop's own de-duplication *)
 (* (hwm <= hwmPersisted) only removes behaviours; the value may be older than the node's current hwm.          *)
 FollowerRecv(m) ==
-  /\ m \notin lead /\ hch[m] # 0
+  /\ m \notin lead /\ ~isl[m] /\ hch[m] # 0
   /\ hch' = [hch EXCEPT ![m] = 0]
   /\ AdoptHWM(m, hch[m])
-  /\ UNCHANGED <<applied, inq, batch, highKey, startHigh, taken, snapIdx, lead, up, delivered, lastIdx, ordOK, flips, restarts, snaps, downs>>
+  /\ UNCHANGED <<applied, inq, batch, highKey, startHigh, taken, snapIdx, lead, up, delivered, lastIdx, ordOK, flips, restarts, snaps, downs, mvars>>
 
 (* store.fsmSnapshot: snapshotSync.Sync -> writeToBatcher flushes the batcher and waits for the FIFO write; *)
 (* afterwards the log up to `applied` may be truncated.                                                      *)
@@ -187,7 +226,7 @@ SnapshotSync(n) ==
   /\ applied[n] > snapIdx[n] /\ snaps < MaxSnaps
   /\ SyncFlushBeforeSnapshot => (batch[n] = <<>> /\ (DrainInBeforeSync => inq[n] = <<>>))
   /\ snapIdx' = [snapIdx EXCEPT ![n] = applied[n]] /\ snaps' = Cnt(snaps, MaxSnaps)
-  /\ UNCHANGED <<applied, inq, batch, fifo, highKey, startHigh, cursor, taken, hwm, hch, lead, up, delivered, lastIdx, ordOK, flips, restarts, downs>>
+  /\ UNCHANGED <<applied, inq, batch, fifo, highKey, startHigh, cursor, taken, hwm, hch, lead, up, delivered, lastIdx, ordOK, flips, restarts, downs, mvars>>
 
 (* process restart: NewService + store.Open *)
 Restart(n) ==
@@ -198,14 +237,17 @@ Restart(n) ==
   /\ hch' = [hch EXCEPT ![n] = 0] /\ lead' = lead \ {n}
   /\ hwm' = [hwm EXCEPT ![n] = RestartHWM(fifo[n])]
   /\ startHigh' = [startHigh EXCEPT ![n] = highKey[n]] /\ lastIdx' = [lastIdx EXCEPT ![n] = 0]
+  /\ sig' = [sig EXCEPT ![n] = <<>>] /\ want' = [want EXCEPT ![n] = FALSE] /\ isl' = [isl EXCEPT ![n] = FALSE]
+  /\ stop' = [stop EXCEPT ![n] = FALSE] /\ mwait' = [mwait EXCEPT ![n] = FALSE] /\ unsent' = [unsent EXCEPT ![n] = <<>>]
   /\ UNCHANGED <<fifo, highKey, snapIdx, up, delivered, ordOK, flips, snaps, downs>>
 
 EndpointDown == /\ up /\ downs < MaxDowns /\ up' = FALSE /\ downs' = Cnt(downs, MaxDowns)
-                /\ UNCHANGED <<applied, inq, batch, fifo, highKey, startHigh, cursor, taken, hwm, snapIdx, hch, lead, delivered, lastIdx, ordOK, flips, restarts, snaps>>
+                /\ UNCHANGED <<applied, inq, batch, fifo, highKey, startHigh, cursor, taken, hwm, snapIdx, hch, lead, delivered, lastIdx, ordOK, flips, restarts, snaps, mvars>>
 EndpointUp == /\ ~up /\ up' = TRUE
-              /\ UNCHANGED <<applied, inq, batch, fifo, highKey, startHigh, cursor, taken, hwm, snapIdx, hch, lead, delivered, lastIdx, ordOK, flips, restarts, snaps, downs>>
+              /\ UNCHANGED <<applied, inq, batch, fifo, highKey, startHigh, cursor, taken, hwm, snapIdx, hch, lead, delivered, lastIdx, ordOK, flips, restarts, snaps, downs, mvars>>
 
-Next == \/ \E n \in Node : Apply(n) \/ Ingest(n) \/ Flush(n) \/ Take(n) \/ SendOK(n) \/ Gain(n) \/ Lose(n)
+Next == \/ \E n \in Node : Apply(n) \/ Ingest(n) \/ Flush(n) \/ Take(n) \/ TakeParked(n) \/ SendOK(n) \/ LoopExit(n)
+                           \/ MainHandle(n) \/ Signal(n, TRUE) \/ Signal(n, FALSE)
                            \/ LeaderPrune(n) \/ SnapshotSync(n) \/ Restart(n)
         \/ \E n, m \in Node : Broadcast(n, m)
         \/ \E m \in Node : FollowerRecv(m)
@@ -223,15 +265,18 @@ TypeOK == /\ \A n \in Node : applied[n] \in 0..MaxIdx /\ hwm[n] \in 0..MaxIdx /\
           /\ lead \subseteq Node
 (* structural: what the leader holds is still in its FIFO; keys never exceed the highest-ever key *)
 TakenStored == \A n \in Node : taken[n] # <<>> => (PruneToHWMOnly => taken[n][1] \in Keys(fifo[n]))
+LoopShape == \A n \in Node : /\ (mwait[n] => n \in lead /\ stop[n]) /\ (isl[n] => n \in lead)
+                            /\ (unsent[n] # <<>> => taken[n] = <<>> \/ n \notin lead)
 KeysBounded == \A n \in Node : \A k \in Keys(fifo[n]) : k <= highKey[n] /\ k >= 1
 
 (* ---- liveness (small fair configuration): once the endpoint stays up and one node stays leader, *)
 (* every change is delivered                                                                        *)
 Fair == /\ \A n \in Node : WF_vars(Apply(n)) /\ WF_vars(Ingest(n)) /\ WF_vars(Flush(n)) /\ WF_vars(Take(n))
-                           /\ WF_vars(SendOK(n)) /\ WF_vars(LeaderPrune(n))
+                           /\ WF_vars(SendOK(n)) /\ WF_vars(LeaderPrune(n)) /\ WF_vars(MainHandle(n)) /\ WF_vars(LoopExit(n))
+                           /\ WF_vars(TakeParked(n))
         /\ \A m \in Node : WF_vars(FollowerRecv(m))
         /\ WF_vars(EndpointUp)
 LiveSpec == Spec /\ Fair
 AllDelivered == \A i \in 1..MaxIdx : EntryDelivered(i)
-Live == (\E n \in Node : <>[](up /\ n \in lead)) => <>AllDelivered
+Live == (\E n \in Node : <>[](up /\ n \in lead /\ ~stop[n])) => <>AllDelivered
 =============================================================================
